@@ -75,7 +75,9 @@ pub fn extra(args: &[String]) {
         rng ^= rng >> 7;
         rng ^= rng << 17;
         let boundary = m != prev_members || cp == 0 || cp == 0xE000;
-        let sample = exhaustive || boundary || pending_boundary || rng % 257 == 0 || cp == 0xD7FF || cp == 0x10FFFF;
+        // (path 6 keeps to the sampled characters and names in the exhaustive tier too)
+        let light = boundary || pending_boundary || rng % 257 == 0 || cp == 0xD7FF || cp == 0x10FFFF;
+        let sample = exhaustive || light;
         pending_boundary = boundary;
         if sample {
             let mut buf = [0u8; 4];
@@ -98,7 +100,7 @@ pub fn extra(args: &[String]) {
                 }
                 // path 6 (on a third of the sampled characters)
                 if let Some(uvm) = &uvm {
-                    if (cp as usize + i) % 3 == 0 {
+                    if light && (cp as usize + i) % 3 == 0 && (m.contains(&(i as u16)) || (cp as usize + i) % 37 == 0) {
                         for (gi, g) in groups.iter().enumerate() {
                             let expu = exp || m.contains(&(*g as u16));
                             for pre in ["u", "v"] {
